@@ -1,1 +1,2 @@
 pub mod text;
+pub mod edit;
